@@ -85,7 +85,27 @@ def corruptions():
     c = copy.deepcopy(kl)
     c.pop(ik)
     out.append(("TraceExec", "the kill event removed from the log", c, {"C02.RefuseIllegal", "C02.LegalMoves", "conf.C02.ost.round", "conf.C02.ost", "conf.C09.results", "C09.Accounting", "conf.C05.ctr", "conf.C02.ost.pre"}))
-    base = [("TraceExec", tr), ("TraceSched", st), ("TraceSim", sm), ("TraceExec", rj), ("TraceExec", kl)]
+    # a refused construction of an Assignment: an operator taken before the refusal is logged as handed back to pending
+    rf = None
+    for seed in range(1, 3000):
+        t = driver_exec.run_one(seed, 0, "reject" if seed % 2 else "mixed")
+        last = next((e for e in reversed(t) if e["ev"] == "round"), None)
+        if last is not None and last.get("raised"):
+            prev = next((e for e in reversed(t[:t.index(last)]) if "obs" in e and "ost" in e["obs"]), None)
+            if prev and any(x == "failed" and y == "assigned" for a, b in zip(prev["obs"]["ost"], last["obs"]["ost"]) for x, y in zip(a, b)):
+                rf, irf, prf = t, t.index(last), prev
+                break
+    if rf is None:
+        raise common.MachineryError("selftest: no refused construction that had already taken a failed operator in 3000 seeds")
+    c = copy.deepcopy(rf)
+    done = False
+    for pi, (a, b) in enumerate(zip(prf["obs"]["ost"], c[irf]["obs"]["ost"])):
+        for oi, (x, y) in enumerate(zip(a, b)):
+            if x == "failed" and y == "assigned" and not done:
+                c[irf]["obs"]["ost"][pi][oi] = "pending"
+                done = True
+    out.append(("TraceExec", "refused construction: failed operator logged as handed back to pending", c, {"C02.LegalMoves"}))
+    base = [("TraceExec", tr), ("TraceSched", st), ("TraceSim", sm), ("TraceExec", rj), ("TraceExec", kl), ("TraceExec", rf)]
     return base, out
 
 
